@@ -81,7 +81,7 @@ type side struct {
 	crypto       [3]*streamRec
 	closed       bool
 	closedAt     time.Duration
-	closePayload []byte
+	closePayload [3][]byte
 	scidLen      int
 	// connection IDs this side issued to its peer: seq -> cid (seq 0 = handshake SCID)
 	issued map[uint64][]byte
@@ -117,15 +117,16 @@ type streamRec struct {
 func newStreamRec() *streamRec { return &streamRec{data: map[uint64]byte{}, final: -1} }
 
 type conn struct {
-	client   string
-	version  uint32
-	dcids    [][]byte // destination connection IDs the client chose for its Initials (Initial key material)
-	sides    [2]*side
-	entry    *ref5.KeyLogEntry
-	suite    uint16
-	entries  []ref5.KeyLogEntry
-	vnOrRetr bool
-	limits   [2]*Limits // read off the wire: [0] from the ClientHello, [1] from EncryptedExtensions
+	client    string
+	version   uint32
+	dcids     [][]byte // destination connection IDs the client chose for its Initials (Initial key material)
+	sides     [2]*side
+	appSecret [2][]byte // the 1-RTT secret that opened this side's packets
+	suite     uint16
+	entries   []ref5.KeyLogEntry
+	vnOrRetr  bool
+	limits    [2]*Limits // read off the wire: [0] from the ClientHello, [1] from EncryptedExtensions
+	random    string     // client random of the ClientHello (hex), selects the key log entry
 }
 
 func newSide() *side {
@@ -183,6 +184,15 @@ func arrival(ev sim.Event, oneWay time.Duration, start, end int) time.Duration {
 	return ev.T + oneWay
 }
 
+// pair is everything exchanged between one client address and the server: possibly several
+// connections (a closed connection keeps re-sending its CONNECTION_CLOSE while the re-dial
+// after a Version Negotiation packet is already under way; successive dials on one socket).
+type pair struct {
+	conns   []*conn
+	entries []ref5.KeyLogEntry
+	tainted bool
+}
+
 // Analyze reads the complete datagram log of a run.
 func Analyze(events []sim.Event, keylog []string, p Params) *Report {
 	rep := &Report{Kinds: map[string]int{}}
@@ -190,49 +200,127 @@ func Analyze(events []sim.Event, keylog []string, p Params) *Report {
 		p.OneWay = sim.OneWay
 	}
 	entries := ref5.ParseKeyLog([]byte(strings.Join(keylog, "\n")))
-	conns := map[string]*conn{}
+	pairs := map[string]*pair{}
 	for _, ev := range events {
-		if ev.Injected {
-			// a forged Initial opens under the public Initial keys and may be acknowledged
-			cl := ev.To.String()
-			if ev.Dir == sim.C2S {
-				cl = ev.From.String()
-			}
-			if c := conns[cl]; c != nil {
-				c.forged(ev, int(ev.Dir))
-			}
-			continue
-		}
-		rep.Datagrams++
 		d := int(ev.Dir) // 0: the client sent it
 		cl := ev.From.String()
 		if ev.Dir == sim.S2C {
 			cl = ev.To.String()
 		}
-		c := conns[cl]
-		if c == nil {
+		pr := pairs[cl]
+		if ev.Injected {
+			// A forged datagram can split the exchange in ways a passive observer cannot follow (a
+			// forged Retry makes the client talk to a second server-side connection under the same
+			// client random; a forged Initial is acknowledged): from the first injection on, the
+			// exchange of this address pair is left to the harness's own oracles.
+			if pr != nil {
+				pr.tainted = true
+			} else {
+				pairs[cl] = &pair{entries: entries, tainted: true}
+			}
+			rep.Kinds["injected-datagram"]++
+			continue
+		}
+		if pr != nil && pr.tainted {
+			rep.Kinds["datagram-after-injection-not-judged"]++
+			continue
+		}
+		rep.Datagrams++
+		if pr == nil {
 			if d == 1 {
 				continue // a server datagram towards an address that never sent anything
 			}
-			c = &conn{client: cl, entries: entries, sides: [2]*side{newSide(), newSide()}}
-			conns[cl] = c
-			rep.Connections++
+			pr = &pair{entries: entries}
+			pairs[cl] = pr
 		}
-		c.datagram(rep, ev, d, p)
+		pr.datagram(rep, ev, d, p)
 	}
 	return rep
 }
 
-func (c *conn) datagram(rep *Report, ev sim.Event, d int, p Params) {
-	me, peer := c.sides[d], c.sides[1-d]
+func hasCID(m map[uint64][]byte, id []byte) bool {
+	for _, x := range m {
+		if bytes.Equal(x, id) {
+			return true
+		}
+	}
+	return false
+}
+
+// routeLong finds the connection a long-header packet belongs to (nil: none known).
+func (pr *pair) routeLong(rep *Report, d int, h ref5.LongHeader) *conn {
+	for i := len(pr.conns) - 1; i >= 0; i-- {
+		c := pr.conns[i]
+		cli, srv := c.sides[0], c.sides[1]
+		if d == 0 {
+			if scid, ok := cli.issued[0]; ok && !bytes.Equal(scid, h.SCID) {
+				continue
+			}
+			for _, x := range c.dcids {
+				if bytes.Equal(x, h.DCID) {
+					return c
+				}
+			}
+			if hasCID(srv.issued, h.DCID) {
+				return c
+			}
+			continue
+		}
+		if hasCID(srv.issued, h.SCID) {
+			return c
+		}
+		if _, bound := srv.issued[0]; !bound && h.Version == c.version {
+			if scid, ok := cli.issued[0]; ok && bytes.Equal(scid, h.DCID) {
+				return c // the server's first packet of this connection (or a Retry)
+			}
+		}
+	}
+	if d == 0 && h.Type == ref5.TypeInitial {
+		c := &conn{entries: pr.entries, sides: [2]*side{newSide(), newSide()}, version: h.Version}
+		c.dcids = append(c.dcids, append([]byte(nil), h.DCID...))
+		c.sides[0].issued[0] = append([]byte(nil), h.SCID...)
+		c.sides[0].scidLen = len(h.SCID)
+		pr.conns = append(pr.conns, c)
+		rep.Connections++
+		return c
+	}
+	return nil
+}
+
+func (pr *pair) datagram(rep *Report, ev sim.Event, d int, p Params) {
 	who := [2]string{"client", "server"}[d]
 	rest := ev.Data
 	first := true
 	for len(rest) > 0 {
 		start := len(ev.Data) - len(rest)
 		if rest[0]&0x80 == 0 {
-			// short header: extends to the end of the datagram
-			c.short(rep, ev, d, rest, arrival(ev, p.OneWay, start, len(ev.Data)), p)
+			// short header: extends to the end of the datagram; the connection is the one whose peer
+			// issued the destination connection ID (several candidates with zero-length IDs)
+			arr := arrival(ev, p.OneWay, start, len(ev.Data))
+			rep.Packets++
+			for i := len(pr.conns) - 1; i >= 0; i-- {
+				c := pr.conns[i]
+				peer := c.sides[1-d]
+				if _, ok := peer.issued[0]; !ok || len(rest) < 1+peer.scidLen {
+					continue
+				}
+				if peer.scidLen > 0 && !hasCID(peer.issued, rest[1:1+peer.scidLen]) {
+					continue
+				}
+				if c.short(rep, ev, d, rest, arr, p) {
+					return
+				}
+			}
+			// stateless resets and packets sent after the keys were dropped look like this
+			rep.NotOpened++
+			rep.Kinds[who+":short-header-not-opened"]++
+			for _, c := range pr.conns {
+				c.sides[d].unopened[spApp]++
+			}
+			return
+		}
+		if len(rest) >= 5 && rest[1]|rest[2]|rest[3]|rest[4] == 0 {
+			rep.Kinds[who+":VersionNegotiation"]++
 			return
 		}
 		h, err := ref5.ParseLong(rest)
@@ -243,113 +331,78 @@ func (c *conn) datagram(rep *Report, ev sim.Event, d int, p Params) {
 			return // trailing garbage after a coalesced packet is padding
 		}
 		first = false
-		if h.Version == 0 {
-			rep.Kinds[who+":VersionNegotiation"]++
-			c.vnOrRetr = true
-			return
-		}
+		c := pr.routeLong(rep, d, h)
 		if h.Type == ref5.TypeRetry {
 			rep.Kinds[who+":Retry"]++
-			c.vnOrRetr = true
-			if d == 1 && len(h.SCID) > 0 {
+			if c != nil && d == 1 && len(h.SCID) > 0 {
 				c.dcids = append(c.dcids, append([]byte(nil), h.SCID...)) // the client's next Initials are keyed by it
 			}
 			return
 		}
 		pkt := rest[:h.PacketLen]
 		rest = rest[h.PacketLen:]
-		arr := arrival(ev, p.OneWay, start, start+h.PacketLen)
-		if debug {
-			fmt.Fprintf(os.Stderr, "WIREMON %v %s type=%d v=%x dcid=%x scid=%x len=%d dcids=%x peer0=%x\n", ev.T, who, h.Type, h.Version, h.DCID, h.SCID, h.PacketLen, c.dcids, peer.issued[0])
-		}
 		rep.Packets++
-		c.version = h.Version
-		if d == 0 && h.Type == ref5.TypeInitial {
-			known := len(c.dcids) == 0
-			for _, x := range c.dcids {
-				known = known || bytes.Equal(x, h.DCID)
-			}
-			for _, x := range peer.issued {
-				if bytes.Equal(x, h.DCID) {
-					known = true // the client switched to a connection ID the server issued
-				}
-			}
-			if !known {
-				// an Initial towards an unrelated connection ID: the next connection attempt from this
-				// address (re-dial after Version Negotiation, next dial on the same socket)
-				c.sides = [2]*side{newSide(), newSide()}
-				c.dcids, c.entry, c.vnOrRetr = nil, nil, false
-				c.limits = [2]*Limits{}
-				me, peer = c.sides[d], c.sides[1-d]
-				rep.Connections++
-			}
-			if len(c.dcids) == 0 {
-				c.dcids = append(c.dcids, append([]byte(nil), h.DCID...))
-			}
-			if _, ok := me.issued[0]; !ok {
-				me.issued[0] = append([]byte(nil), h.SCID...)
-				me.scidLen = len(h.SCID)
-			}
-		}
-		if d == 1 {
-			if _, ok := me.issued[0]; !ok {
-				me.issued[0] = append([]byte(nil), h.SCID...)
-				me.scidLen = len(h.SCID)
-			}
-		}
-		if d == 1 {
-			mine := false
-			for _, x := range me.issued {
-				mine = mine || bytes.Equal(x, h.SCID)
-			}
-			if !mine {
-				// another connection of the server towards this address (e.g. the phantom connection a
-				// server creates for an Initial whose connection ID was damaged in transit)
-				rep.Kinds["server:packet-of-another-connection"]++
-				continue
-			}
-		}
-		var space int
-		var keys []ref5.Keys
-		switch h.Type {
-		case ref5.TypeInitial:
-			space = spInitial
-			for i := len(c.dcids) - 1; i >= 0; i-- {
-				ck, sk := ref5.InitialKeys(h.Version, c.dcids[i])
-				keys = append(keys, [2]ref5.Keys{ck, sk}[d])
-			}
-		case ref5.TypeHandshake:
-			space = spHandshake
-			keys = c.levelKeys(d, [2]string{ref5.LabelClientHandshake, ref5.LabelServerHandshake}[d], h.Version)
-		default: // 0-RTT
-			space = spApp
-			keys = c.levelKeys(d, "CLIENT_EARLY_TRAFFIC_SECRET", h.Version)
-		}
-		var hdr, payload []byte
-		var pn uint64
-		opened := false
-		for _, k := range keys {
-			var err error
-			hdr, pn, payload, _, err = ref5.UnprotectLongFull(pkt, k, me.largest[space])
-			if err == nil {
-				opened = true
-				break
-			}
-		}
-		kind := [...]string{"Initial", "0-RTT", "Handshake", "Retry"}[h.Type]
-		if !opened {
-			rep.NotOpened++
-			me.unopened[space]++
-			if len(keys) > 0 {
-				rep.add("wire:packet-does-not-open:"+who+":"+kind, "%s sent a %s packet at %v that does not open under the RFC 9001 keys of this connection (packet number decoded relative to the largest sent so far, %d): %x...", who, kind, ev.T, me.largest[space], head(pkt))
-			}
+		if c == nil {
+			// e.g. the phantom connection a server creates for an Initial whose connection ID was
+			// damaged in transit
+			rep.Kinds[who+":packet-of-unknown-connection"]++
 			continue
 		}
-		rep.Opened++
-		rep.Kinds[who+":"+kind]++
-		c.packet(rep, ev, d, space, kind, hdr, pn, len(hdr)-pnOffsetOf(h), payload, h.DCID, arr, p)
-		_ = peer
+		c.long(rep, ev, d, h, pkt, arrival(ev, p.OneWay, start, start+h.PacketLen), p)
 	}
+}
+
+func (c *conn) long(rep *Report, ev sim.Event, d int, h ref5.LongHeader, pkt []byte, arr time.Duration, p Params) {
+	me := c.sides[d]
+	who := [2]string{"client", "server"}[d]
+	if debug {
+		fmt.Fprintf(os.Stderr, "WIREMON %v %s type=%d v=%x dcid=%x scid=%x len=%d dcids=%x\n", ev.T, who, h.Type, h.Version, h.DCID, h.SCID, h.PacketLen, c.dcids)
+	}
+	if d == 1 {
+		if _, ok := me.issued[0]; !ok {
+			me.issued[0] = append([]byte(nil), h.SCID...)
+			me.scidLen = len(h.SCID)
+		}
+	}
+	var space int
+	var keys []ref5.Keys
+	switch h.Type {
+	case ref5.TypeInitial:
+		space = spInitial
+		for i := len(c.dcids) - 1; i >= 0; i-- {
+			ck, sk := ref5.InitialKeys(h.Version, c.dcids[i])
+			keys = append(keys, [2]ref5.Keys{ck, sk}[d])
+		}
+	case ref5.TypeHandshake:
+		space = spHandshake
+		keys = c.levelKeys(d, [2]string{ref5.LabelClientHandshake, ref5.LabelServerHandshake}[d], h.Version)
+	default: // 0-RTT
+		space = spApp
+		keys = c.levelKeys(d, "CLIENT_EARLY_TRAFFIC_SECRET", h.Version)
+	}
+	var hdr, payload []byte
+	var pn uint64
+	opened := false
+	for _, k := range keys {
+		var err error
+		hdr, pn, payload, _, err = ref5.UnprotectLongFull(pkt, k, me.largest[space])
+		if err == nil {
+			opened = true
+			break
+		}
+	}
+	kind := [...]string{"Initial", "0-RTT", "Handshake", "Retry"}[h.Type]
+	if !opened {
+		rep.NotOpened++
+		me.unopened[space]++
+		if space == spInitial && len(keys) > 0 || space != spInitial && c.hasSecret(d, h.Type) {
+			rep.add("wire:packet-does-not-open:"+who+":"+kind, "%s sent a %s packet at %v that does not open under the RFC 9001 keys of this connection (packet number decoded relative to the largest sent so far, %d): %x...", who, kind, ev.T, me.largest[space], head(pkt))
+		}
+		return
+	}
+	rep.Opened++
+	rep.Kinds[who+":"+kind]++
+	c.packet(rep, ev, d, space, kind, hdr, pn, len(hdr)-pnOffsetOf(h), payload, h.DCID, arr, p)
 }
 
 func pnOffsetOf(h ref5.LongHeader) int { return h.PNOffset }
@@ -365,53 +418,67 @@ func head(b []byte) []byte {
 // worked before first, else every entry of the key log with every suite of matching size.
 func (c *conn) levelKeys(d int, label string, version uint32) []ref5.Keys {
 	var out []ref5.Keys
-	if c.entry != nil {
-		if k, ok := c.entry.Keys(label, version, c.suite); ok {
-			out = append(out, k)
-		}
-	}
 	for i := range c.entries {
 		e := &c.entries[i]
+		if c.random != "" && e.ClientRandom != c.random {
+			continue
+		}
 		for _, s := range e.Suites() {
-			if k, ok := e.Keys(label, version, s); ok {
-				out = append(out, k)
+			for _, sec := range e.All[label] {
+				if k, ok := keysOf(sec, version, s); ok {
+					out = append(out, k)
+				}
 			}
 		}
 	}
 	return out
 }
 
-func (c *conn) short(rep *Report, ev sim.Event, d int, pkt []byte, arr time.Duration, p Params) {
+func keysOf(secret []byte, version uint32, suite uint16) (k ref5.Keys, ok bool) {
+	defer func() {
+		if recover() != nil {
+			ok = false // secret size does not fit the suite
+		}
+	}()
+	want := 32
+	if suite == ref5.TLS_AES_256_GCM_SHA384 {
+		want = 48
+	}
+	if len(secret) != want {
+		return k, false
+	}
+	return ref5.KeysFromSecret(secret, version, suite), true
+}
+
+func (c *conn) short(rep *Report, ev sim.Event, d int, pkt []byte, arr time.Duration, p Params) bool {
 	me, peer := c.sides[d], c.sides[1-d]
 	who := [2]string{"client", "server"}[d]
-	rep.Packets++
 	dl := peer.scidLen
-	if _, ok := peer.issued[0]; !ok {
-		rep.NotOpened++
-		me.unopened[spApp]++
-		return // nothing known about the peer's connection IDs (e.g. a stateless reset towards a stranger)
-	}
 	label := [2]string{ref5.LabelClientTraffic, ref5.LabelServerTraffic}[d]
 	type cand struct {
-		e *ref5.KeyLogEntry
-		s uint16
+		sec []byte
+		s   uint16
 	}
 	var cands []cand
-	if c.entry != nil {
-		cands = append(cands, cand{c.entry, c.suite})
+	if c.appSecret[d] != nil {
+		cands = append(cands, cand{c.appSecret[d], c.suite})
 	}
 	for i := range c.entries {
+		if c.random != "" && c.entries[i].ClientRandom != c.random {
+			continue
+		}
 		for _, s := range c.entries[i].Suites() {
-			cands = append(cands, cand{&c.entries[i], s})
+			for _, sec := range c.entries[i].All[label] {
+				cands = append(cands, cand{sec, s})
+			}
 		}
 	}
 	for _, cd := range cands {
-		sec, ok := cd.e.Secrets[label]
-		if !ok {
-			continue
-		}
 		for _, g := range []int{me.gen, me.gen + 1} {
-			k := ref5.GenerationKeys(sec, c.version, cd.s, g)
+			if _, ok := keysOf(cd.sec, c.version, cd.s); !ok {
+				continue
+			}
+			k := ref5.GenerationKeys(cd.sec, c.version, cd.s, g)
 			hdr, pn, payload, err := ref5.UnprotectShortFull(pkt, k, me.largest[spApp], dl)
 			if err != nil {
 				continue
@@ -420,17 +487,14 @@ func (c *conn) short(rep *Report, ev sim.Event, d int, pkt []byte, arr time.Dura
 				rep.Kinds[who+":key-update"]++
 				me.gen = g
 			}
-			c.entry, c.suite = cd.e, cd.s
+			c.appSecret[d], c.suite = cd.sec, cd.s
 			rep.Opened++
 			rep.Kinds[who+":1-RTT"]++
 			c.packet(rep, ev, d, spApp, "1-RTT", hdr, pn, len(hdr)-1-dl, payload, pkt[1:1+dl], arr, p)
-			return
+			return true
 		}
 	}
-	// stateless resets and packets sent after the keys were dropped look like this
-	me.unopened[spApp]++
-	rep.NotOpened++
-	rep.Kinds[who+":short-header-not-opened"]++
+	return false
 }
 
 // packet checks one opened packet.
@@ -441,7 +505,7 @@ func (c *conn) packet(rep *Report, ev sim.Event, d, space int, kind string, hdr 
 	// ---- packet numbers (C05)
 	// (RFC 9000 10.2.1: an endpoint in the closing state may keep only its final packet and send
 	// that very packet again in response to incoming packets)
-	resentClose := me.closed && int64(pn) == me.largest[space] && bytes.Equal(payload, me.closePayload)
+	resentClose := me.closed && int64(pn) == me.largest[space] && bytes.Equal(payload, me.closePayload[space])
 	if int64(pn) <= me.largest[space] && !resentClose {
 		rep.add("wire:packet-number-not-increasing:"+who+":"+spaceNames[space], "%s sent %s packet number %d at %v after %d in the same packet number space", who, kind, pn, at, me.largest[space])
 	}
@@ -613,7 +677,7 @@ func (c *conn) packet(rep *Report, ev sim.Event, d, space int, kind string, hdr 
 				seq, found = s, true
 			}
 		}
-		if !found {
+		if !found && peer.unopened[spApp] == 0 {
 			rep.add("wire:destination-connection-id-never-issued:"+who, "%s addressed a 1-RTT packet (number %d, at %v) to connection ID %s, which the peer never issued (issued: %s)", who, pn, at, hex.EncodeToString(dcid), cidList(peer.issued))
 		} else if t, ok := me.retiredOwn[seq]; ok && t < at {
 			rep.add("wire:retired-connection-id-used:"+who, "%s addressed a 1-RTT packet (number %d, at %v) to connection ID %x (sequence number %d) although it had sent RETIRE_CONNECTION_ID for it at %v", who, pn, at, dcid, seq, t)
@@ -628,7 +692,7 @@ func (c *conn) packet(rep *Report, ev sim.Event, d, space int, kind string, hdr 
 			me.closed, me.closedAt = true, at
 		}
 		if hasClose {
-			me.closePayload = append([]byte(nil), payload...)
+			me.closePayload[space] = append([]byte(nil), payload...)
 		}
 	}
 }
@@ -750,36 +814,25 @@ func (c *conn) stream(rep *Report, d int, who string, f Frame, at time.Duration,
 	}
 }
 
-// forged records the packet numbers of injected Initial packets (they open under the public
-// Initial keys, so the receiver may legitimately acknowledge them).
-func (c *conn) forged(ev sim.Event, d int) {
-	rest := ev.Data
-	for len(rest) > 0 && rest[0]&0x80 != 0 {
-		h, err := ref5.ParseLong(rest)
-		if err != nil || h.Version == 0 || h.Type == ref5.TypeRetry {
-			return
-		}
-		pkt := rest[:h.PacketLen]
-		rest = rest[h.PacketLen:]
-		if h.Type != ref5.TypeInitial {
-			c.sides[d].unopened[spHandshake]++
-			continue
-		}
-		ok := false
-		for _, id := range c.dcids {
-			ck, sk := ref5.InitialKeys(h.Version, id)
-			if _, pn, _, _, err := ref5.UnprotectLongFull(pkt, [2]ref5.Keys{ck, sk}[d], c.sides[d].largest[spInitial]); err == nil {
-				if c.sides[d].sent[spInitial][pn] == nil {
-					c.sides[d].sent[spInitial][pn] = &sentPkt{arrive: ev.T}
-				}
-				ok = true
-				break
-			}
-		}
-		if !ok {
-			c.sides[d].unopened[spInitial]++
+// hasSecret: the key log holds, for THIS connection (matched by the client random of its
+// ClientHello), the secret that protects a long-header packet of the given type sent by
+// side d. Only then is a packet that does not open a finding; otherwise the monitor simply
+// lacks the key (the endpoint that would have logged it never derived it).
+func (c *conn) hasSecret(d int, typ int) bool {
+	if c.random == "" {
+		return false
+	}
+	label := [2]string{ref5.LabelClientHandshake, ref5.LabelServerHandshake}[d]
+	if typ != ref5.TypeHandshake {
+		label = "CLIENT_EARLY_TRAFFIC_SECRET"
+	}
+	for i := range c.entries {
+		if c.entries[i].ClientRandom == c.random {
+			_, ok := c.entries[i].Secrets[label]
+			return ok
 		}
 	}
+	return false
 }
 
 // prefix returns the contiguous bytes from offset 0 recorded so far.
@@ -836,8 +889,11 @@ func (c *conn) readLimits(d, space int) {
 		if err != nil {
 			return
 		}
+		c.random = hex.EncodeToString(ch.Random)
 		if tps, err := ch.TransportParams(); err == nil {
 			c.limits[0] = limitsOf(tps)
+		} else {
+			c.limits[0] = &Limits{}
 		}
 		return
 	}
